@@ -575,6 +575,64 @@ def check_k5_conjuncts(crate, b, kk, evs, writes, aggs, dstores, lens):
         return True, ""
     if lens and name not in ():
         return False, "%s stores the length field directly" % name
+    if name == "set":
+        # one word, read-modify-write of a single bit: (old & !(1 << i % BU)) | (bit << i % BU)
+        idx = ("param", b.local_name(2))
+        if len(writes) != 1:
+            return False, "set performs %d raw writes, expected one" % len(writes)
+        w = writes[0]
+        if split_div_bu(w.index) != idx:
+            return False, "set writes word `%s`, expected index / BIT_UNIT" % show(w.index)
+        v = w.value
+        ok = is_bin(v, "BitOr")
+        if ok:
+            parts = (v[2], v[3])
+            clear = [x for x in parts if is_bin(x, "BitAnd") and any(y[0] == "un" and y[1] == "Not" for y in (x[2], x[3]))]
+            put = [x for x in parts if is_bin(x, "Shl") and split_rem_bu(x[3]) == idx]
+            ok = len(clear) == 1 and len(put) == 1
+            if ok:
+                nt = [y for y in (clear[0][2], clear[0][3]) if y[0] == "un"][0][2]
+                ok = is_bin(nt, "Shl") and split_rem_bu(nt[3]) == idx and show(nt[2]) in ("1", "ONE")
+        if not ok:
+            return False, "set stores `%s`, expected (old & !(1 << index %% BU)) | (bit << index %% BU)" % show(v)[:120]
+        return True, ""
+    if name in ("from_binary", "from_hex", "from_bytes"):
+        for o in {w.obj for w in writes}:
+            init = b.init_expr(o[2]) if o[0] == "var" and len(o) > 2 else None
+            if init is None or not storage.is_zero_data(init):
+                return False, "%s: digits are shifted into storage that is not zero-initialised" % name
+        for w in writes:
+            v = w.value if w.how == "assign" else None
+            if v is None:
+                return False, "%s: unexpected write form %s" % (name, w.how)
+            if not (is_bin(v, "BitOr") and any(is_bin(x, "Shl") for x in (v[2], v[3]))) and not is_call(mir.strip_casts(v), "cast_from"):
+                return False, "%s: stored word `%s` is not (old << k) | digit" % (name, show(v)[:80])
+        return True, ""
+    if name in ("shl_assign", "shr_assign"):
+        ors = [w for w in writes if w.how == "call:bitor_assign" or (w.how == "assign" and is_bin(w.value, "BitOr"))]
+        if not ors:
+            return False, "%s: no chunk is or-ed into place" % name
+        for w in ors:
+            v = w.value[0] if w.how.startswith("call:") else w.value
+            if not mir.contains(v, lambda x: is_bin(x, "BitAnd") and (is_call(x[2], "mask") or is_call(x[3], "mask"))):
+                return False, "%s: the moved chunk is not `& mask(l)`-ed before being or-ed into place" % name
+        clears = [w for w in writes if w not in ors]
+        for w in clears:
+            v = w.value[0] if w.how.startswith("call:") else w.value
+            if not mir.contains(v, lambda x: x[0] == "un" and x[1] == "Not" and mir.contains(x, lambda y: is_call(y, "mask"))):
+                return False, "%s: destination bits are not cleared with `& !(mask(l) << i)`" % name
+        return True, ""
+    if name in ("append", "prepend") and fam == "Bvd":
+        arg = ("param", b.local_name(2))
+        for w in writes:
+            v = w.value if w.how == "assign" else (w.value[0] if w.value else None)
+            if v is None:
+                continue
+            src_ok = mir.contains(v, lambda x: is_call(x, "get_int") and x[3] and x[3][0] == arg) or \
+                mir.contains(v, lambda x: x[0] == "var" and x[1] == "prev")
+            if not src_ok:
+                return False, "%s: stored word `%s` does not come from the length-masked accessor of the argument" % (name, show(v)[:80])
+        return True, ""
     return True, ""
 
 
